@@ -219,7 +219,16 @@ pub fn stabilize<'text, Sc, F, V>(mut parser: F)
                     return Ok(succ);
                 },
                 Err(fail) if fail.is_recoverable() => {
+                    let start_pos = lexer.cursor_pos();
                     match lexer.advance_to_recover() {
+                        // No progress was made towards a recovery point, so
+                        // another attempt would fail from the same position.
+                        Ok(_) if lexer.cursor_pos() == start_pos => {
+                            event!(Level::DEBUG, "error recovery failed: \
+                                no progress ({})",
+                                lexer.cursor_pos());
+                            return Err(fail);
+                        },
                         Ok(_) => {
                             event!(Level::DEBUG, "error recovery point found \
                                 ({})",
